@@ -874,7 +874,7 @@ class NumpyModel:
         for it in items:
             if it.ty in ('ndarray', 'list') or it.dtype == 'bool':
                 fancy = True
-        out = base.only('ty', 'geo', 'idx', 'mono', 'prov', 'store', 'cols', 'colvals', 'taint', 'dtype', 'enc', 'origin', 'fft', 'mono_unknown')
+        out = base.only('ty', 'geo', 'idx', 'mono', 'prov', 'store', 'cols', 'colvals', 'taint', 'dtype', 'enc', 'origin', 'fft', 'mono_unknown', 'bincount_of')
         # column / row selection of a table whose columns (rows) carry their own kinds: t[:, k], t[..., k], t.T[k]
         def _full(i):
             return (i.ty == 'slice' and i.lo is None and i.hi is None and i.step is None) or (has_const(i) and cval(i) is Ellipsis)
